@@ -4,7 +4,7 @@
    Model/C14f.v (binary64 = SpecFloat at prec 53 / emax 1024). *)
 From Coq Require Import ZArith String Bool Permutation List SpecFloat.
 From CBI Require Import Lib.Data Model.C14 Model.C14f Proofs.C14 Proofs.C14f.
-From CBI Require Import Gen.C14_sites Model.C14g Proofs.C14g.
+From CBI Require Import Gen.C14_sites Model.C14g Proofs.C14g Proofs.C14r.
 From CBI Require Model.C16 Proofs.C16 Proofs.C14d.
 Import ListNotations.
 
@@ -101,6 +101,22 @@ Proof.
   split; [discriminate|]. rewrite H3, H4. discriminate.
 Qed.
 Print Assumptions C14_metrics_perm_float_old_refuted.
+
+(* format(x, ".2f") as the model renders it: for a finite binary64 value
+   (-1)^s * m * 2^e the answer h (in hundredths) is exact when e >= 0 and
+   otherwise the integer nearest to 100 * m * 2^e, the even one on a tie;
+   its sign is the sign of the value.  (Python's format is compared with this
+   function on every float of every correspondence run.) *)
+Theorem C14_fmt2_nearest :
+  forall s m e h, fmt2 (S754_finite s m e) = D2 h ->
+    (0 <= e -> Z.abs h = Zpos m * 100 * 2 ^ e)%Z /\
+    (e < 0 ->
+       let k := 2 ^ (- e) in
+       let err := Z.abs (Z.abs h * k - Zpos m * 100) in
+       2 * err <= k /\ (2 * err = k -> Z.even h = true))%Z /\
+    (s = true -> h <= 0)%Z /\ (s = false -> 0 <= h)%Z.
+Proof. exact fmt2_nearest. Qed.
+Print Assumptions C14_fmt2_nearest.
 
 (* PARTIAL.  average_coverage iterates a Python set of platforms and adds the
    per-platform coverages with CPython's compensated sum().  Proved: for every
